@@ -1040,6 +1040,18 @@ class Engine:
             pointer = True
             n = n.args[0]
         se = SpecEval(old, env, None, None, self)
+        if isinstance(n, ast.Call) and isinstance(n.func, ast.Name) and n.func.id == "fresh_heap":
+            # objects allocated by the callee may have any value in this field family;
+            # objects that existed before the call keep theirs
+            key = n.args[0].value
+            self._touch_heap_key(st, key)
+            for hk in [k for k in list(st.heap) if k == key or k.startswith(key + "?") or k.startswith(key + "!")]:
+                a = st.heap[hk]
+                a2 = z3.Const("hvf_%s!%d" % (hk, fresh(INT).t.hash()), a.sort())
+                x = z3.Int("x!fh")
+                st.assume(z3.ForAll([x], z3.Implies(z3.And(x > 0, x < old.alloc), a2[x] == a[x])))
+                st.heap[hk] = a2
+            return
         if isinstance(n, ast.Call) and isinstance(n.func, ast.Name) and n.func.id == "heap":
             # heap("f:Class.field") : havoc a whole field array (coarse frames for opaque callees)
             key = n.args[0].value
